@@ -373,7 +373,42 @@ def _coverage(repo, rep):
     sn = repo.func("chameleon.zpt.template._stable_name")
     tsn = L.text(sn.node)
     guards = [src(n.test) for n in ast.walk(sn.node) if isinstance(n, ast.If)]
-    okc = any("__closure__" in g and "'<'" in g for g in guards)
+    # the stable name is returned under a CONJUNCTION of: it has a module
+    # and a name, no '<' in the name, no closure, and no owner other than a
+    # class or module (each conjunct in this polarity)
+    okc = False
+    for n in ast.walk(sn.node):
+        if not isinstance(n, ast.If):
+            continue
+        rets = [r for r in ast.walk(ast.Module(n.body, [])) if isinstance(
+            r, ast.Return)]
+        if not any(t_ == "%s.%s" for r in rets if r.value is not None
+                   for t_, a_, n_ in L.fmt_sites(r.value)):
+            continue
+
+        def conj(e):
+            if isinstance(e, ast.BoolOp) and isinstance(e.op, ast.And):
+                out = []
+                for v in e.values:
+                    out += conj(v)
+                return out
+            return [e]
+        cs = [src(L.inline_locals(sn.node, c)).replace(" ", "")
+              for c in conj(n.test)]
+        need = [
+            lambda t: t.startswith("getattr(value,'__module__'"),
+            lambda t: "__qualname__" in t and "__name__" in t
+            and not t.startswith("'<'"),
+            lambda t: t.startswith("'<'notin"),
+            lambda t: t == "getattr(value,'__closure__',None)isNone",
+            lambda t: t in (
+                "getattr(value,'__self__',None)isNoneor"
+                "isinstance(getattr(value,'__self__',None),"
+                "(type,ModuleType))",),
+        ]
+        okc = len(cs) == len(need) and all(
+            any(f_(c) for c in cs) for f_ in need)
+        guards = cs
     rep.check(okc, "R15.1", sn.qualname, "module.qualname is used as a "
               "value's name only for module-level objects (no '<locals>' / "
               "'<lambda>' in the qualified name, no closure); anything else "
